@@ -874,3 +874,39 @@ func (fr *Frame) lookupName(name string, st *State, rt *loopRt, phis map[*ssa.Ph
 	}
 	return Val{}, false
 }
+
+// lookupNameAt resolves a source-level name at a block (used for postconditions): the latest
+// debug-referenced value whose definition dominates the block, or a cell by name.
+func (fr *Frame) lookupNameAt(name string, st *State, at *ssa.BasicBlock) (Val, bool) {
+	e := fr.e
+	var best *ssa.Alloc
+	for _, b := range fr.fn.Blocks {
+		for _, ins := range b.Instrs {
+			if a, ok := ins.(*ssa.Alloc); ok && a.Comment == name {
+				if _, ev := fr.vals[a]; ev && a.Block().Dominates(at) {
+					best = a
+				}
+			}
+		}
+	}
+	if best != nil {
+		return e.load(st, fr.vals[best], token.NoPos), true
+	}
+	var bestV ssa.Value
+	for _, cand := range fr.names[name] {
+		ins, ok := cand.(ssa.Instruction)
+		if !ok {
+			continue
+		}
+		if _, ev := fr.vals[cand]; !ev || !ins.Block().Dominates(at) {
+			continue
+		}
+		if bestV == nil || bestV.(ssa.Instruction).Block().Dominates(ins.Block()) {
+			bestV = cand
+		}
+	}
+	if bestV != nil {
+		return fr.vals[bestV], true
+	}
+	return Val{}, false
+}
